@@ -12,19 +12,30 @@
 //   rnrow<n, d>(id);                    ratio<n,d> normalisation           (part (a))
 //   rarow<n1,d1,n2,d2, mops, sops>(id); ratio arithmetic and comparison    (part (a))
 //   mrow(id);                           conjunction / disjunction / negation, integral_constant (fixed row)
+//   irow<F, TL<A...>, TL<B...>>(id);    INVOKE: is_invocable(_r), invoke_result, invocable, regular_invocable, predicate
+//                                       of etl for <F, A...> and of std for <F, B...> (A and B differ in the namespace
+//                                       of reference_wrapper only); modelled in Lean (Tetl/C15/Invoke.lean)
+//   xrow(id);                           plain etl-vs-std items: aligned_storage/aligned_union, conditional, enable_if,
+//                                       void_t, unwrap_reference/unwrap_ref_decay, predicate/relation/..., <cstdint>
 //
 // Every row prints `id <TAB> etl-result <TAB> std-result`; a result is a blank-separated list of
 // `name=value`.  Type-valued results are printed in the prefix encoding of Tetl/C15/Model.lean
 // (`CType.enc`) by the partial specialisations of `Enc` below, which are independent of both libraries.
 // Everything is evaluated at compile time (constexpr tables); the run time only prints.
 #include <etl/concepts.hpp>
+#include <etl/cstddef.hpp>
+#include <etl/cstdint.hpp>
+#include <etl/_functional/reference_wrapper.hpp>
 #include <etl/limits.hpp>
 #include <etl/ratio.hpp>
 #include <etl/type_traits.hpp>
 
 #include <concepts>
+#include <cstddef>
+#include <cstdint>
 #include <cstdio>
 #include <cstring>
+#include <functional>
 #include <limits>
 #include <ratio>
 #include <string>
@@ -613,6 +624,121 @@ static void dbrow(int id)
     std::printf("\n");
 }
 
+
+// ---- INVOKE ([func.require]) ------------------------------------------------------------------------
+// the named zoo of Tetl/C15/Invoke.lean (`callableOf`, `abaseOf`): every member function has its own return type, so
+// that invoke_result tells which one was selected
+namespace inv {
+struct S {
+    int x;
+    int const cx = 0;
+    short f0();
+    int fl() &;
+    long fr() &&;
+    char fc() const;
+    unsigned fcl() const&;
+    unsigned long fcr() const&&;
+    float fn() noexcept;
+    bool fcn() const noexcept;
+    double fa(int);
+    void fv();
+    long long fvl() const volatile&;
+    long long frn() && noexcept;
+};
+struct D : S { };
+struct U { };
+using pm_f0  = decltype(&S::f0);
+using pm_fl  = decltype(&S::fl);
+using pm_fr  = decltype(&S::fr);
+using pm_fc  = decltype(&S::fc);
+using pm_fcl = decltype(&S::fcl);
+using pm_fcr = decltype(&S::fcr);
+using pm_fn  = decltype(&S::fn);
+using pm_fcn = decltype(&S::fcn);
+using pm_fa  = decltype(&S::fa);
+using pm_fv  = decltype(&S::fv);
+using pm_fvl = decltype(&S::fvl);
+using pm_frn = decltype(&S::frn);
+using pd_x   = int S::*;
+using pd_cx  = int const S::*;
+struct FoP { short operator()(int); };
+struct FoC { int operator()(int) const; };
+struct FoL { long operator()(int) &; };
+struct FoR { char operator()(int) &&; };
+struct FoCL { unsigned operator()(int) const&; };
+struct FoCR { unsigned long operator()(int) const&&; };
+struct FoOv {
+    float operator()(int) &;
+    double operator()(int) &&;
+    int operator()(int) const&;
+};
+struct FoOv2 {
+    short operator()(int);
+    bool operator()(int) const;
+};
+struct FoN { bool operator()(int) const noexcept; };
+struct FoV { void operator()(int) const; };
+struct FoCVL { long long operator()(int) const volatile&; };
+struct FoBin { bool operator()(int, int) const; };          // relation / equivalence_relation / strict_weak_order
+struct FoBinS { bool operator()(S const&, S const&) const; };
+using fn_t   = int(int);
+using fn_p   = int (*)(int);
+using fn_r   = int (&)(int);
+using fn_pn  = int (*)(int) noexcept;
+using nc_int = int;
+using nc_U   = U;
+struct smC { S& operator*() const; };
+struct smK { S const& operator*() const; };
+struct smN { S& operator*(); };
+struct smL { S& operator*() &; };
+struct smR { S& operator*() &&; };
+template <typename... Ts> struct TL { };
+template <typename T> using Q0 = T;
+template <typename T> using Q1 = T&;
+template <typename T> using Q2 = T&&;
+template <typename T> using Q3 = T const;
+template <typename T> using Q4 = T const&;
+template <typename T> using Q5 = T const&&;
+} // namespace inv
+
+#define C15_INV_SIDE(ns)                                                                                               \
+    template <typename F, typename... A>                                                                               \
+    static void put_inv_##ns(inv::TL<A...>)                                                                            \
+    {                                                                                                                  \
+        std::printf("is_invocable=%d is_invocable::value=%d", ns::is_invocable_v<F, A...> ? 1 : 0,                    \
+            ns::is_invocable<F, A...>::value ? 1 : 0);                                                                 \
+        std::printf(" is_invocable_r<void>=%d is_invocable_r<void>::value=%d", ns::is_invocable_r_v<void, F, A...> ? 1 : 0, \
+            ns::is_invocable_r<void, F, A...>::value ? 1 : 0);                                                         \
+        std::printf(" is_invocable_r<int>=%d is_invocable_r<int>::value=%d", ns::is_invocable_r_v<int, F, A...> ? 1 : 0, \
+            ns::is_invocable_r<int, F, A...>::value ? 1 : 0);                                                          \
+        std::printf(" is_invocable_r<int&>=%d is_invocable_r<int&>::value=%d", ns::is_invocable_r_v<int&, F, A...> ? 1 : 0, \
+            ns::is_invocable_r<int&, F, A...>::value ? 1 : 0);                                                         \
+        std::printf(" is_invocable_r<int&&>=%d is_invocable_r<int&&>::value=%d", ns::is_invocable_r_v<int&&, F, A...> ? 1 : 0, \
+            ns::is_invocable_r<int&&, F, A...>::value ? 1 : 0);                                                        \
+        std::printf(" is_invocable_r<int_const&>=%d is_invocable_r<int_const&>::value=%d",                             \
+            ns::is_invocable_r_v<int const&, F, A...> ? 1 : 0, ns::is_invocable_r<int const&, F, A...>::value ? 1 : 0); \
+        if constexpr (requires { typename ns::invoke_result_t<F, A...>; }) {                                           \
+            std::printf(" invoke_result=%s", enc<ns::invoke_result_t<F, A...>>().c_str());                             \
+        } else {                                                                                                       \
+            std::printf(" invoke_result=none");                                                                        \
+        }                                                                                                              \
+        std::printf(" invoke_result::type=%s", nary_type_or_none<ns::invoke_result, F, A...>().c_str());               \
+        std::printf(" invocable=%d regular_invocable=%d predicate=%d", ns::invocable<F, A...> ? 1 : 0,                 \
+            ns::regular_invocable<F, A...> ? 1 : 0, ns::predicate<F, A...> ? 1 : 0);                                   \
+    }
+C15_INV_SIDE(etl)
+C15_INV_SIDE(std)
+
+template <typename F, typename EtlArgs, typename StdArgs>
+static void irow(int id)
+{
+    std::printf("%d\t", id);
+    put_inv_etl<F>(EtlArgs{});
+    std::printf("\t");
+    put_inv_std<F>(StdArgs{});
+    std::printf("\n");
+}
+
 // ---- (b) numeric_limits --------------------------------------------------------------------------
 #define C15_LIM_CONST(X)                                                                                               \
     X(is_specialized) X(digits) X(digits10) X(max_digits10) X(is_signed) X(is_integer) X(is_exact) X(radix)            \
@@ -744,13 +870,136 @@ static void put_logic()
     std::printf(" conj_short=%d disj_short=%d", Conj<False, Poison<int>>::value ? 1 : 0, Disj<True, Poison<int>>::value ? 1 : 0);
     std::printf(" neg_t=%d neg_f=%d neg_2=%d", Neg<True>::value ? 1 : 0, Neg<False>::value ? 1 : 0, Neg<two>::value ? 1 : 0);
 }
+
+// ---- plain etl-vs-std items of facilities no other row instantiates (fixed row) -----------------------
+namespace c15x {
+template <typename T> concept bt_etl = etl::boolean_testable<T>;
+template <typename T> concept bt_std = std::__detail::__boolean_testable<T>;          // exposition-only in the standard
+template <template <bool, typename> class E, bool B, typename T> constexpr bool ei_has_type = requires { typename E<B, T>::type; };
+template <typename T> constexpr bool storage_ok = std::is_trivial_v<T> && std::is_standard_layout_v<T>;
+template <typename T, int Bits, bool Signed>
+constexpr bool int_ok = std::is_integral_v<T> && sizeof(T) * 8 >= Bits && std::is_signed_v<T> == Signed;
+} // namespace c15x
+
+#define C15_X_AS(ns, L, A)                                                                                             \
+    std::printf(" aligned_storage<" #L "," #A ">=%lu/%lu/%d aligned_storage_t<" #L "," #A ">=%lu/%lu/%d",               \
+        (unsigned long)sizeof(typename ns::aligned_storage<L, A>::type), (unsigned long)alignof(typename ns::aligned_storage<L, A>::type), \
+        c15x::storage_ok<typename ns::aligned_storage<L, A>::type> ? 1 : 0, (unsigned long)sizeof(ns::aligned_storage_t<L, A>),            \
+        (unsigned long)alignof(ns::aligned_storage_t<L, A>), c15x::storage_ok<ns::aligned_storage_t<L, A>> ? 1 : 0);
+// default alignment: implementation-defined (libstdc++: always the maximum, etl like libc++/MSVC: that of the largest
+// fundamental type that fits) - only what the standard requires is compared
+#define C15_X_ASD(ns, L)                                                                                               \
+    std::printf(" aligned_storage<" #L ">=%d", (sizeof(ns::aligned_storage_t<L>) >= L && c15x::storage_ok<ns::aligned_storage_t<L>>           \
+        && (alignof(ns::aligned_storage_t<L>) & (alignof(ns::aligned_storage_t<L>) - 1)) == 0) ? 1 : 0);
+#define C15_X_AU(ns, name, ...)                                                                                        \
+    std::printf(" aligned_union<" name ">=%lu/%lu/%lu/%d", (unsigned long)sizeof(ns::aligned_union_t<__VA_ARGS__>),     \
+        (unsigned long)alignof(ns::aligned_union_t<__VA_ARGS__>), (unsigned long)ns::aligned_union<__VA_ARGS__>::alignment_value, \
+        c15x::storage_ok<typename ns::aligned_union<__VA_ARGS__>::type> ? 1 : 0);
+#define C15_X_TY(name, ...)  std::printf(" " name "=%s", enc<__VA_ARGS__>().c_str());
+#define C15_X_TRAIT(ns, tr, name, ...) std::printf(" " #tr "<" name ">::type=%s", nary_type_or_none<ns::tr, __VA_ARGS__>().c_str());
+#define C15_X_B(name, ...)   std::printf(" " name "=%d", (__VA_ARGS__) ? 1 : 0);
+#define C15_X_REL(ns, name, ...)                                                                                       \
+    std::printf(" relation<" name ">=%d equivalence_relation<" name ">=%d strict_weak_order<" name ">=%d",             \
+        ns::relation<__VA_ARGS__> ? 1 : 0, ns::equivalence_relation<__VA_ARGS__> ? 1 : 0, ns::strict_weak_order<__VA_ARGS__> ? 1 : 0);
+#define C15_X_INT(ns, t, bits, sg)  std::printf(" " #t "=%d", c15x::int_ok<ns::t, bits, sg> ? 1 : 0);
+
+#define C15_X_SI(ns, r)  std::printf(" " #r "=%lld/%lld", (long long)ns::r::num, (long long)ns::r::den);
+
+#define C15_X_SIDE(ns)                                                                                                 \
+    static void put_x_##ns()                                                                                           \
+    {                                                                                                                  \
+        using RWi  = ns::reference_wrapper<int>;                                                                       \
+        using RWci = ns::reference_wrapper<int const>;                                                                 \
+        C15_X_AS(ns, 1, 1) C15_X_AS(ns, 3, 2) C15_X_AS(ns, 5, 4) C15_X_AS(ns, 8, 8) C15_X_AS(ns, 16, 1) C15_X_AS(ns, 17, 16) \
+        C15_X_ASD(ns, 1) C15_X_ASD(ns, 3) C15_X_ASD(ns, 8) C15_X_ASD(ns, 17) C15_X_ASD(ns, 64)                          \
+        C15_X_AU(ns, "3,char,double", 3, char, double) C15_X_AU(ns, "17,int", 17, int) C15_X_AU(ns, "1,char", 1, char)  \
+        C15_X_AU(ns, "10,ldouble,short", 10, long double, short) C15_X_AU(ns, "0,short,char,int", 0, short, char, int)  \
+        C15_X_TY("conditional<1,int,long>::type", typename ns::conditional<true, int, long>::type)                    \
+        C15_X_TY("conditional<0,int,long>::type", typename ns::conditional<false, int, long>::type)                   \
+        C15_X_TY("conditional_t<1,int&,void>", ns::conditional_t<true, int&, void>)                                   \
+        C15_X_TY("conditional_t<0,int&,void>", ns::conditional_t<false, int&, void>)                                  \
+        C15_X_TY("enable_if<1,int>::type", typename ns::enable_if<true, int>::type)                                   \
+        C15_X_TY("enable_if<1>::type", typename ns::enable_if<true>::type)                                            \
+        C15_X_TY("enable_if_t<1,int_const&>", ns::enable_if_t<true, int const&>)                                      \
+        C15_X_B("enable_if<0,int>::type?", c15x::ei_has_type<ns::enable_if, false, int>)                             \
+        C15_X_B("enable_if<1,int>::type?", c15x::ei_has_type<ns::enable_if, true, int>)                                    \
+        C15_X_B("enable_if<0>::type?", c15x::ei_has_type<ns::enable_if, false, void>)                                         \
+        C15_X_TY("void_t<>", ns::void_t<>) C15_X_TY("void_t<int,long&,Cls>", ns::void_t<int, long&, Cls>)              \
+        C15_X_TRAIT(ns, unwrap_reference, "int", int) C15_X_TRAIT(ns, unwrap_reference, "int&", int&)                  \
+        C15_X_TRAIT(ns, unwrap_reference, "int_const", int const) C15_X_TRAIT(ns, unwrap_reference, "Cls", Cls)        \
+        C15_X_TRAIT(ns, unwrap_reference, "RW<int>", RWi) C15_X_TRAIT(ns, unwrap_reference, "RW<int_const>", RWci)     \
+        C15_X_B("unwrap_reference<RW<int>_const>::type==RW<int>_const", std::is_same_v<typename ns::unwrap_reference<RWi const>::type, RWi const>) \
+        C15_X_B("unwrap_reference<RW<int>&>::type==RW<int>&", std::is_same_v<typename ns::unwrap_reference<RWi&>::type, RWi&>) \
+        C15_X_TY("unwrap_reference_t<RW<int>>", ns::unwrap_reference_t<RWi>)                                          \
+        C15_X_TY("unwrap_reference_t<long>", ns::unwrap_reference_t<long>)                                            \
+        C15_X_TRAIT(ns, unwrap_ref_decay, "int", int) C15_X_TRAIT(ns, unwrap_ref_decay, "int&", int&)                  \
+        C15_X_TRAIT(ns, unwrap_ref_decay, "int_const&", int const&) C15_X_TRAIT(ns, unwrap_ref_decay, "int[3]", int[3]) \
+        C15_X_TRAIT(ns, unwrap_ref_decay, "int(int)", int(int)) C15_X_TRAIT(ns, unwrap_ref_decay, "Cls&&", Cls&&)      \
+        C15_X_TRAIT(ns, unwrap_ref_decay, "RW<int>", RWi) C15_X_TRAIT(ns, unwrap_ref_decay, "RW<int>&", RWi&)          \
+        C15_X_TRAIT(ns, unwrap_ref_decay, "RW<int>_const&", RWi const&)                                               \
+        C15_X_TRAIT(ns, unwrap_ref_decay, "RW<int_const>&&", RWci&&)                                                  \
+        C15_X_TY("unwrap_ref_decay_t<RW<int>>", ns::unwrap_ref_decay_t<RWi>)                                          \
+        C15_X_TY("unwrap_ref_decay_t<int_const&>", ns::unwrap_ref_decay_t<int const&>)                                \
+        C15_X_B("predicate<FoN,int>", ns::predicate<inv::FoN, int>) C15_X_B("predicate<FoN>", ns::predicate<inv::FoN>) \
+        C15_X_B("predicate<FoV,int>", ns::predicate<inv::FoV, int>) C15_X_B("predicate<FoBin,int,long>", ns::predicate<inv::FoBin, int, long>) \
+        C15_X_B("predicate<pm_fcn,S>", ns::predicate<inv::pm_fcn, inv::S>) C15_X_B("predicate<pm_fv,S>", ns::predicate<inv::pm_fv, inv::S>) \
+        C15_X_B("predicate<pd_x,S>", ns::predicate<inv::pd_x, inv::S>) C15_X_B("predicate<FoP_const,int>", ns::predicate<inv::FoP const, int>) \
+        C15_X_REL(ns, "FoBin,int,int", inv::FoBin, int, int) C15_X_REL(ns, "FoBin,int,long", inv::FoBin, int, long)    \
+        C15_X_REL(ns, "FoBin,int,S", inv::FoBin, int, inv::S) C15_X_REL(ns, "FoBinS,S,D", inv::FoBinS, inv::S, inv::D) \
+        C15_X_REL(ns, "FoBinS,S,int", inv::FoBinS, inv::S, int) C15_X_REL(ns, "FoN,int,int", inv::FoN, int, int)       \
+        C15_X_REL(ns, "FoBin&,char,double", inv::FoBin&, char, double)                                                \
+        C15_X_B("boolean_testable<bool>", c15x::bt_##ns<bool>) C15_X_B("boolean_testable<int>", c15x::bt_##ns<int>)    \
+        C15_X_B("boolean_testable<int*>", c15x::bt_##ns<int*>) C15_X_B("boolean_testable<void>", c15x::bt_##ns<void>)  \
+        C15_X_B("boolean_testable<Cls>", c15x::bt_##ns<Cls>) C15_X_B("boolean_testable<nullptr_t>", c15x::bt_##ns<decltype(nullptr)>) \
+        C15_X_B("boolean_testable<bool&>", c15x::bt_##ns<bool&>) C15_X_B("boolean_testable<ES>", c15x::bt_##ns<ES>)    \
+        C15_X_B("boolean_testable<ConvToInt>", c15x::bt_##ns<ConvToInt>)                                              \
+        C15_X_B("boolean_testable<true_type>", c15x::bt_##ns<ns::true_type>)                                          \
+        C15_X_TY("int8_t", ns::int8_t) C15_X_TY("int16_t", ns::int16_t) C15_X_TY("int32_t", ns::int32_t)              \
+        C15_X_TY("int64_t", ns::int64_t) C15_X_TY("uint8_t", ns::uint8_t) C15_X_TY("uint16_t", ns::uint16_t)          \
+        C15_X_TY("uint32_t", ns::uint32_t) C15_X_TY("uint64_t", ns::uint64_t) C15_X_TY("intmax_t", ns::intmax_t)      \
+        C15_X_TY("uintmax_t", ns::uintmax_t) C15_X_TY("intptr_t", ns::intptr_t) C15_X_TY("uintptr_t", ns::uintptr_t)  \
+        C15_X_TY("size_t", ns::size_t) C15_X_TY("ptrdiff_t", ns::ptrdiff_t) C15_X_TY("nullptr_t", ns::nullptr_t)      \
+        /* least / fast: implementation-defined choice; at least N bits, the right signedness */                       \
+        C15_X_INT(ns, int_least8_t, 8, true) C15_X_INT(ns, int_least16_t, 16, true) C15_X_INT(ns, int_least32_t, 32, true) \
+        C15_X_INT(ns, int_least64_t, 64, true) C15_X_INT(ns, uint_least8_t, 8, false) C15_X_INT(ns, uint_least16_t, 16, false) \
+        C15_X_INT(ns, uint_least32_t, 32, false) C15_X_INT(ns, uint_least64_t, 64, false) C15_X_INT(ns, int_fast8_t, 8, true) \
+        C15_X_INT(ns, int_fast16_t, 16, true) C15_X_INT(ns, int_fast32_t, 32, true) C15_X_INT(ns, int_fast64_t, 64, true) \
+        C15_X_INT(ns, uint_fast8_t, 8, false) C15_X_INT(ns, uint_fast16_t, 16, false) C15_X_INT(ns, uint_fast32_t, 32, false) \
+        C15_X_INT(ns, uint_fast64_t, 64, false)                                                                       \
+        C15_X_SI(ns, atto) C15_X_SI(ns, femto) C15_X_SI(ns, pico) C15_X_SI(ns, nano) C15_X_SI(ns, micro) C15_X_SI(ns, milli) \
+        C15_X_SI(ns, centi) C15_X_SI(ns, deci) C15_X_SI(ns, deca) C15_X_SI(ns, hecto) C15_X_SI(ns, kilo) C15_X_SI(ns, mega) \
+        C15_X_SI(ns, giga) C15_X_SI(ns, tera) C15_X_SI(ns, peta) C15_X_SI(ns, exa)                                     \
+        /* an incomplete class type, where the standard allows one */                                                  \
+        C15_X_B("is_class<Incomplete>", ns::is_class_v<Incomplete>) C15_X_B("is_union<Incomplete>", ns::is_union_v<Incomplete>) \
+        C15_X_B("is_enum<Incomplete>", ns::is_enum_v<Incomplete>) C15_X_B("is_void<Incomplete>", ns::is_void_v<Incomplete>) \
+        C15_X_B("is_object<Incomplete>", ns::is_object_v<Incomplete>) C15_X_B("is_compound<Incomplete>", ns::is_compound_v<Incomplete>) \
+        C15_X_B("is_const<Incomplete_const>", ns::is_const_v<Incomplete const>)                                       \
+        C15_X_B("is_pointer<Incomplete*>", ns::is_pointer_v<Incomplete*>)                                             \
+        C15_X_B("is_member_object_pointer<int_Incomplete::*>", ns::is_member_object_pointer_v<int Incomplete::*>)     \
+        C15_X_B("is_same<remove_cv_t<Incomplete_const>,Incomplete>", ns::is_same_v<ns::remove_cv_t<Incomplete const>, Incomplete>) \
+        C15_X_B("is_base_of<Incomplete,Incomplete>", ns::is_base_of_v<Incomplete, Incomplete>)                        \
+        C15_X_B("is_convertible<Incomplete*,void*>", ns::is_convertible_v<Incomplete*, void*>)                        \
+        C15_X_B("is_convertible<Incomplete&,Incomplete_const&>", ns::is_convertible_v<Incomplete&, Incomplete const&>) \
+        C15_X_TY("add_pointer_t<Incomplete>", ns::add_pointer_t<Incomplete>)                                          \
+        C15_X_TY("decay_t<Incomplete_const&>", ns::decay_t<Incomplete const&>)                                        \
+        C15_X_TY("add_rvalue_reference_t<Incomplete>", ns::add_rvalue_reference_t<Incomplete>)                        \
+        C15_X_TY("remove_extent_t<Incomplete[]>", ns::remove_extent_t<Incomplete[]>)                                  \
+        std::printf(" byte=%d/%lu/%s max_align_t=%lu/%d", std::is_enum_v<ns::byte> ? 1 : 0, (unsigned long)sizeof(ns::byte), \
+            enc<std::underlying_type_t<ns::byte>>().c_str(), (unsigned long)alignof(ns::max_align_t),                 \
+            c15x::storage_ok<ns::max_align_t> ? 1 : 0);                                                                \
+    }
+C15_X_SIDE(etl)
+C15_X_SIDE(std)
+
 template <int>
 static void mrow(int id)
 {
     std::printf("%d\t", id);
     put_logic<etl::conjunction, etl::disjunction, etl::negation, etl::integral_constant, etl::true_type, etl::false_type>();
+    put_x_etl();
     std::printf("\t");
     put_logic<std::conjunction, std::disjunction, std::negation, std::integral_constant, std::true_type, std::false_type>();
+    put_x_std();
     std::printf("\n");
 }
 
